@@ -53,8 +53,12 @@ def worker(chunk):
                 traces = []
                 from ml_pipeline_engine.parallelism import threads_pool_registry
                 needs_pool = bool(w.dag.is_thread_pool_needed)
+                ik = None
                 for r in range(k):
-                    ik = {'x': rng.choice(['v', 'w', '', 'u%d' % r])}
+                    # a caller may keep its request in one dict and pass that very dict to several runs
+                    if ik is None or rng.random() < 0.6:
+                        ik = {'x': rng.choice(['v', 'w', '', 'u%d' % r])}
+                        pristine = dict(ik)       # what the caller wrote into it
                     ik0 = dict(ik)
                     # the pool registry is the one piece of state outside the chart: shut the pool down (or bring it back)
                     down = needs_pool and r > 0 and rng.random() < 0.35
@@ -78,6 +82,13 @@ def worker(chunk):
                     # C03: every body invocation of the history run gets the arguments it gets on a fresh chart
                     ba = [o[2:] for e in tr['events'] for o in e.get('obs', []) if o[0] == 'body']
                     bb = [o[2:] for e in fresh['events'] for o in e.get('obs', []) if o[0] == 'body']
+                    # C03: the input node gets exactly what the caller put into the dict it passes — also when the caller
+                    # passes the same dict to several runs
+                    first_in = next((o for o in ba if o[0] == spec['input']), None)
+                    if first_in is not None and first_in[3] != {k: progen.canon(v) for k, v in pristine.items()}:
+                        rec.setdefault('viol_c03', []).append(
+                            f'run {r} of the history invokes the input node with {first_in[3]}; the caller\'s input_kwargs '
+                            f'are {pristine} (the dict was passed to an earlier run as well)')
                     if ba != bb and fresh['verdict'] == tr['verdict']:
                         dif = next((x for x, y in zip(ba, bb) if x != y), None)
                         rec.setdefault('viol_c03', []).append(
@@ -195,6 +206,10 @@ def c03_histories(n):
     rng = random.Random(C.seed() * 911 + 3)
     profs = ('rec', 'mixed', 'rec', 'shared', 'oneof', 'switch')
     cases = [('C07', rng.randrange(1 << 40), profs[i % len(profs)]) for i in range(n)]
+    from . import mkcorpus
+    for name in sorted(mkcorpus.MOTIFS):
+        if name.startswith(('M29', 'M40')):       # the two-role and input-restarts motifs
+            cases += [('C07', rng.randrange(1 << 40), 'motif:' + name) for _ in range(3)]
     chunks = [cases[i:i + 8] for i in range(0, len(cases), 8)]
     recs = []
     with mp.get_context('fork').Pool(sched.NPROC) as pool:
